@@ -58,7 +58,7 @@ def set_distance_restraint(molecule,
     if ancestor == target_node:
         ref_node, target_node = target_node, ref_node
     elif ancestor != ref_node:
-        msg=("Your distance restraint between node { } { } is not valid. "
+        msg=("Your distance restraint between node {} {} is not valid. "
              "Likely you are trying to apply distance restraints on a "
              "branched molecule. This is not fully supported yet. ")
         raise OSError(msg.format(ref_node, target_node))
